@@ -7,7 +7,7 @@ Model: `Harper/Model/DictIO.lean` (the dictionary file as written by `save_dict`
 accept test, the add / restart / crash / lint state machine, the JS linter's two dictionaries).
 Helper lemmas: `Harper/Lemmas/DictIO.lean`. `lower` / `normalize` are parameters (`Spell.Fns`).
 
-The property as stated is FALSE of the code in five ways, each proved below on a concrete history
+The property as stated is FALSE of the code in seven ways, each proved below on a concrete history
 and recorded in `known_findings.json`:
 * `case_collision` — `add zqxv; add Zqxv` re-flags `zqxv` and drops it from the file;
 * `crash_loses_all` (+ `crash_loses_old_word_and_invents_one`, `crash_torn_character_loses_all`) —
@@ -17,8 +17,13 @@ and recorded in `known_findings.json`:
 * `other_dialect_word_never_accepted` — a word the curated dictionary lists for another dialect
   stays flagged after being added (the merged dictionary answers metadata from its first child);
 * `js_import_case_variant_stale` — `import_words` does not re-synchronise when the count does not
-  grow.
-What does hold is proved as `…_partial` theorems with the hypotheses spelled out.
+  grow;
+* `untitled_file_dict_add_ignored` (w24) — `HarperAddToFileDict` on an `untitled:` document saves
+  nothing, keeps nothing, says nothing: the word stays reported;
+* `untitled_path_overwrites_file_dict` (w24) — the same command on `untitled:/a/b.md` replaces the file
+  dictionary of `/a/b.md` by the one new word.
+What does hold is proved as `…_partial` theorems with the hypotheses spelled out. Operations that concern
+a document carry its URL kind (`fileUrl`, `untitledUrl`, `untitledPathUrl`, `opaqueUrl`).
 -/
 namespace Harper.C07
 open Harper.Spell Harper.Stats Harper.DictIO
@@ -96,9 +101,9 @@ theorem benign_step (f : Fns) (cur : List Entry) (w : Word) (s : State) (op : Op
     · rw [← hk h.symm]; exact mem_insert_self f w' _
     · exact mem_insert_of_ne f w' w _ hm h
   | crashAdd _ _ _ _ => cases hb
-  | addFile _ _ _ => exact ⟨hc, hm⟩
+  | addFile u n w' ord => rw [step_addFile_user]; exact ⟨hc, hm⟩
   | restart => exact ⟨hc, hm⟩
-  | lint _ _ => exact ⟨hc, hm⟩
+  | lint u n qs => rw [step_lint_user]; exact ⟨hc, hm⟩
   | jsImport _ => exact ⟨hc, hm⟩
   | jsLint _ => exact ⟨hc, hm⟩
   | jsRestart _ => exact ⟨hc, hm⟩
@@ -143,7 +148,7 @@ theorem add_then_accepted_partial (f : Fns) (cur : List Entry) (s : State) (w : 
 -- of every benign kind (incl. a restart and another add); the answers computed by the kernel
 example : Clean fnsAscii (.file (abcq ++ ['\n']) false) ∧ WellFormedWord zqxv ∧
     fnsAscii.normalize zqxv = zqxv ∧
-    (∀ op ∈ [Op.restart, .add Zqxv.reverse [], .addFile 3 abcq [], .lint 1 [abcq]],
+    (∀ op ∈ [Op.restart, .add Zqxv.reverse [], .addFile fileUrl 3 abcq [], .lint fileUrl 1 [abcq]],
       Benign fnsAscii zqxv op) := by
   refine ⟨by decide, by decide, by decide, ?_⟩
   intro op hop
@@ -151,16 +156,16 @@ example : Clean fnsAscii (.file (abcq ++ ['\n']) false) ∧ WellFormedWord zqxv 
   rcases hop with rfl | rfl | rfl | rfl <;> simp [Benign] <;> decide
 example : (step fnsAscii [⟨colour, false⟩]
       (runOps fnsAscii [] { user := .file (abcq ++ ['\n']) false }
-        [.add zqxv [], .restart, .add Zqxv.reverse [], .addFile 3 abcq []])
-      (.lint 1 [zqxv, abcq, Zqxv, ['Z', 'Q', 'X', 'V'], ['z', 'q']])).2
+        [.add zqxv [], .restart, .add Zqxv.reverse [], .addFile fileUrl 3 abcq []])
+      (.lint fileUrl 1 [zqxv, abcq, Zqxv, ['Z', 'Q', 'X', 'V'], ['z', 'q']])).2
     = [true, true, true, true, false] := by decide
 
 /-- **Case collision: the full property is false.** `add zqxv; add Zqxv; lint "zqxv"` reports `zqxv`
 again, and the saved file holds only `Zqxv` — the earlier word is lost without any crash.
 (Confirmed on the real code; finding `c07-case-collision`, not fixed.) -/
 theorem case_collision :
-    (step fnsAscii [] (runOps fnsAscii [] {} [.add zqxv []]) (.lint 0 [zqxv])).2 = [true] ∧
-    (step fnsAscii [] (runOps fnsAscii [] {} [.add zqxv [], .add Zqxv []]) (.lint 0 [zqxv])).2
+    (step fnsAscii [] (runOps fnsAscii [] {} [.add zqxv []]) (.lint fileUrl 0 [zqxv])).2 = [true] ∧
+    (step fnsAscii [] (runOps fnsAscii [] {} [.add zqxv [], .add Zqxv []]) (.lint fileUrl 0 [zqxv])).2
       = [false] ∧
     (runOps fnsAscii [] {} [.add zqxv [], .add Zqxv []]).user
       = .file ['Z', 'q', 'x', 'v', '\n'] false := by decide
@@ -168,7 +173,7 @@ theorem case_collision :
 -- in the other order nothing is lost from the user's point of view: the lower-case entry also
 -- admits the capitalised form
 example : (step fnsAscii [] (runOps fnsAscii [] {} [.add Zqxv [], .add zqxv []])
-    (.lint 0 [zqxv, Zqxv])).2 = [true, true] := by decide
+    (.lint fileUrl 0 [zqxv, Zqxv])).2 = [true, true] := by decide
 
 /-- **A word typed with `’` is never accepted.** The word map stores the spelling as typed but
 `contains_exact_word` compares it with the NORMALIZED query (`’` ↦ `'`): adding `zq’xv` (the code
@@ -176,7 +181,7 @@ action takes the word from the document) has no effect. (Finding `c07-unnormaliz
 theorem unnormalized_word_never_accepted :
     (runOps fnsAscii [] {} [.add zqApos []]).user = .file (zqApos ++ ['\n']) false ∧
     (step fnsAscii [] (runOps fnsAscii [] {} [.add zqApos []])
-      (.lint 0 [zqApos, ['z', 'q', '\'', 'x', 'v']])).2 = [false, false] := by decide
+      (.lint fileUrl 0 [zqApos, ['z', 'q', '\'', 'x', 'v']])).2 = [false, false] := by decide
 
 /-- **A word of another dialect is never accepted.** `colour` is in the curated dictionary, tagged
 British; the merged dictionary answers `get_word_metadata` from its first child, so under American
@@ -185,7 +190,7 @@ English the token keeps the British tag and stays reported after `add colour`.
 theorem other_dialect_word_never_accepted :
     (runOps fnsAscii [⟨colour, false⟩] {} [.add colour []]).user = .file (colour ++ ['\n']) false ∧
     (step fnsAscii [⟨colour, false⟩] (runOps fnsAscii [⟨colour, false⟩] {} [.add colour []])
-      (.lint 0 [colour])).2 = [false] := by decide
+      (.lint fileUrl 0 [colour])).2 = [false] := by decide
 
 /-! ## nothing is lost without a crash or a collision -/
 
@@ -244,9 +249,9 @@ theorem restart_preserves_from (f : Fns) (cur : List Entry) (ops : List Op) :
       intro w
       simpa [runOps, userAdds] using this w
     | crashAdd w' ord k j => have := hnc (.crashAdd w' ord k j) (by simp); simp [isCrash] at this
-    | addFile n w' ord => exact same _ rfl rfl
+    | addFile u n w' ord => exact same _ (step_addFile_user f cur s u n w' ord) rfl
     | restart => exact same _ rfl rfl
-    | lint n qs => exact same _ rfl rfl
+    | lint u n qs => exact same _ (step_lint_user f cur s u n qs) rfl
     | jsImport ws => exact same _ rfl rfl
     | jsLint qs => exact same _ rfl rfl
     | jsRestart ord => exact same _ rfl rfl
@@ -268,17 +273,18 @@ theorem restart_preserves (f : Fns) (cur : List Entry) (ops : List Op)
   simpa using this
 
 -- non-vacuity: a history with restarts, a file-dictionary add and a repeated add
-example : WellFormed (userAdds [.add zqxv [], .restart, .add abcq [], .addFile 1 Zqxv [], .restart,
-      .add zqxv [], .lint 0 [zqxv]]) ∧
+example : WellFormed (userAdds [.add zqxv [], .restart, .add abcq [], .addFile fileUrl 1 Zqxv [], .restart,
+      .add zqxv [], .lint fileUrl 0 [zqxv]]) ∧
     (loadOrEmpty fnsAscii (runOps fnsAscii [] {} [.add zqxv [], .restart, .add abcq [],
-      .addFile 1 Zqxv [], .restart, .add zqxv [], .lint 0 [zqxv]]).user) = [zqxv, abcq] := by decide
+      .addFile fileUrl 1 Zqxv [], .restart, .add zqxv [], .lint fileUrl 0 [zqxv]]).user) = [zqxv, abcq] := by decide
 
 /-- the language server's in-memory copy is never stale: after an add or a document check it equals
 what the file reloads to (every handler re-reads the files) -/
 theorem mem_fresh (f : Fns) (cur : List Entry) (s : State) (w : Word) (ord : List Word)
     (n : Nat) (qs : List Word) :
     (step f cur s (.add w ord)).1.mem = loadOrEmpty f (step f cur s (.add w ord)).1.user ∧
-    (step f cur s (.lint n qs)).1.mem = loadOrEmpty f (step f cur s (.lint n qs)).1.user :=
+    (step f cur s (.lint fileUrl n qs)).1.mem
+      = loadOrEmpty f (step f cur s (.lint fileUrl n qs)).1.user :=
   ⟨rfl, rfl⟩
 
 /-! ## a crash during a save -/
@@ -315,7 +321,7 @@ theorem crash_loses_all :
     loadOrEmpty fnsAscii
       (runOps fnsAscii [] {} [.add zqxv [], .add abcq [], .crashAdd zqé [] 1 0]).user = [] ∧
     (step fnsAscii [] (runOps fnsAscii [] {} [.add zqxv [], .add abcq [], .crashAdd zqé [] 1 0])
-      (.lint 0 [zqxv, abcq])).2 = [false, false] := by decide
+      (.lint fileUrl 0 [zqxv, abcq])).2 = [false, false] := by decide
 
 /-- a crash after 7 of the 13 bytes: an OLD word (`abcq`) is lost and a word nobody added (`ab`)
 is now in the dictionary -/
@@ -323,7 +329,7 @@ theorem crash_loses_old_word_and_invents_one :
     (runOps fnsAscii [] {} [.add zqxv [], .add abcq [], .crashAdd zqé [] 1 7]).user
       = .file ['z', 'q', 'x', 'v', '\n', 'a', 'b'] false ∧
     (step fnsAscii [] (runOps fnsAscii [] {} [.add zqxv [], .add abcq [], .crashAdd zqé [] 1 7])
-      (.lint 0 [zqxv, abcq, ['a', 'b']])).2 = [true, false, true] := by decide
+      (.lint fileUrl 0 [zqxv, abcq, ['a', 'b']])).2 = [true, false, true] := by decide
 
 /-- a crash inside the two bytes of `é`: the file is not UTF-8, `load_dict` fails, the server
 falls back to the empty dictionary — and the next add overwrites the file with one word -/
@@ -374,30 +380,32 @@ example : locate (saveTrace [zqxv, abcq]) 0 = (1, 0) ∧ locate (saveTrace [zqxv
 
 /-- **A file-dictionary word affects only its file.** `HarperAddToFileDict` for a document whose
 dictionary file name is `n` leaves the accept answer of every word unchanged in every document
-whose dictionary file name `m` is different. (`file_dict_name` itself is per-op data: it is NOT
+whose dictionary file name `m` is different — whatever the kind `u` of the command's URL (w24: an
+`untitled:/a/b.md` URL writes the dictionary of `/a/b.md`, and only that). (`file_dict_name` itself is per-op data: it is NOT
 injective on paths — `/a/b` and `/a%b` share a name — which the oracle records as
 `c07-file-dict-name-collision`.) -/
-theorem file_dict_isolated (f : Fns) (cur : List Entry) (s : State) (n m : Nat) (w : Word)
-    (ord : List Word) (h : m ≠ n) (q : Word) :
-    acceptM f (children f cur (step f cur s (.addFile n w ord)).1 m) q
+theorem file_dict_isolated (f : Fns) (cur : List Entry) (s : State) (u : UrlKind) (n m : Nat)
+    (w : Word) (ord : List Word) (h : m ≠ n) (q : Word) :
+    acceptM f (children f cur (step f cur s (.addFile u n w ord)).1 m) q
       = acceptM f (children f cur s m) q := by
-  simp only [step, children, fileDisk_cons_ne _ _ _ _ h]
+  simp only [children, step_addFile_user, step_addFile_fileDisk_ne f cur s u n m w ord h]
 
-/-- … and in its own file the word is accepted (same side conditions as for the user dictionary) -/
+/-- … and in its own file the word is accepted (same side conditions as for the user dictionary) —
+for a `file:` URL; for an `untitled:` URL see `add_file_untitled_not_accepted` below -/
 theorem file_dict_accepted_partial (f : Fns) (cur : List Entry) (s : State) (n : Nat) (w : Word)
     (ord : List Word) (hclean : Clean f (fileDisk s.files n)) (hw : WellFormedWord w)
     (hn : f.normalize w = w) (hcur : ∀ e, lookup f cur w = some e → e.dialectOk = true) :
-    acceptM f (children f cur (step f cur s (.addFile n w ord)).1 n) w = true := by
+    acceptM f (children f cur (step f cur s (.addFile fileUrl n w ord)).1 n) w = true := by
   obtain ⟨hl, hp, _, _⟩ := add_reload f (fileDisk s.files n) w ord hclean hw
   have he := loadOrEmpty_of_loadDict hl
-  simp only [step, children, fileDisk_cons_self, he]
+  simp only [step_addFile_file, children, fileDisk_cons_self, he]
   refine acceptM_of_file f cur _ _ ?_ w (hp.mem_iff.mpr (mem_insert_self f w _)) hn hcur
     (fun e h => lookup_entries_dialectOk f _ w e h)
   exact uniqueKeys_perm f hp (uniqueKeys_insert f w _ (uniqueKeys_loadOrEmpty f _))
 
 -- non-vacuity: two documents, the word is accepted in document 1 only
-example : (step fnsAscii [] (runOps fnsAscii [] {} [.addFile 1 zqxv []]) (.lint 1 [zqxv])).2 = [true] ∧
-    (step fnsAscii [] (runOps fnsAscii [] {} [.addFile 1 zqxv []]) (.lint 2 [zqxv])).2 = [false] := by
+example : (step fnsAscii [] (runOps fnsAscii [] {} [.addFile fileUrl 1 zqxv []]) (.lint fileUrl 1 [zqxv])).2 = [true] ∧
+    (step fnsAscii [] (runOps fnsAscii [] {} [.addFile fileUrl 1 zqxv []]) (.lint fileUrl 2 [zqxv])).2 = [false] := by
   decide
 
 /-! ## the other lints -/
@@ -574,7 +582,7 @@ example : acceptM fnsAscii (children fnsAscii [⟨colour, false⟩, ⟨Zqxv, tru
       (runOps fnsAscii [⟨colour, false⟩, ⟨Zqxv, true⟩]
         (step fnsAscii [⟨colour, false⟩, ⟨Zqxv, true⟩] { user := .file (abcq ++ ['\n']) false }
           (.add zqxv [])).1
-        [.restart, .add Zqxv.reverse [], .addFile 3 abcq [], .lint 1 [abcq]]) 1) zqxv = true :=
+        [.restart, .add Zqxv.reverse [], .addFile fileUrl 3 abcq [], .lint fileUrl 1 [abcq]]) 1) zqxv = true :=
   add_then_accepted_partial fnsAscii _ _ zqxv [] _ 1 (by decide) (by decide) (by decide)
     (by decide)
     (by intro op hop
@@ -584,9 +592,9 @@ example : acceptM fnsAscii (children fnsAscii [⟨colour, false⟩, ⟨Zqxv, tru
 /-- non-vacuity of `restart_preserves`: the theorem applied to a history with restarts, a
 file-dictionary add, a repeated add and a document check — all three hypotheses together -/
 example : (∀ w, w ∈ loadOrEmpty fnsAscii (runOps fnsAscii [] {} [.add zqxv [], .restart, .add abcq [],
-      .addFile 1 Zqxv [], .restart, .add zqxv [], .lint 0 [zqxv]]).user ↔ w ∈ [zqxv, abcq, zqxv]) :=
-  (restart_preserves fnsAscii [] [.add zqxv [], .restart, .add abcq [], .addFile 1 Zqxv [], .restart,
-    .add zqxv [], .lint 0 [zqxv]] (by decide) (by decide) (by decide)).1
+      .addFile fileUrl 1 Zqxv [], .restart, .add zqxv [], .lint fileUrl 0 [zqxv]]).user ↔ w ∈ [zqxv, abcq, zqxv]) :=
+  (restart_preserves fnsAscii [] [.add zqxv [], .restart, .add abcq [], .addFile fileUrl 1 Zqxv [], .restart,
+    .add zqxv [], .lint fileUrl 0 [zqxv]] (by decide) (by decide) (by decide)).1
 
 /-- non-vacuity of `crash_after_full_write_ok`: the theorem applied (both hypotheses), old file present -/
 example : loadDict fnsAscii (crashDisk (saveTrace [zqxv, abcq, []]) ((chunks [zqxv, abcq, []]).length + 1) 5
@@ -597,12 +605,12 @@ example : loadDict fnsAscii (crashDisk (saveTrace [zqxv, abcq, []]) ((chunks [zq
 dictionary already holds a word, the curated slice lists the added word's key -/
 example : acceptM fnsAscii (children fnsAscii [⟨Zqxv, true⟩]
       (step fnsAscii [⟨Zqxv, true⟩] { files := [(1, .file (abcq ++ ['\n']) false)] }
-        (.addFile 1 zqxv [])).1 1) zqxv = true :=
+        (.addFile fileUrl 1 zqxv [])).1 1) zqxv = true :=
   file_dict_accepted_partial fnsAscii _ _ 1 zqxv [] (by decide) (by decide) (by decide) (by decide)
 example : acceptM fnsAscii (children fnsAscii []
-      (step fnsAscii [] { files := [(1, .file (abcq ++ ['\n']) false)] } (.addFile 1 zqxv [])).1 2) zqxv
+      (step fnsAscii [] { files := [(1, .file (abcq ++ ['\n']) false)] } (.addFile fileUrl 1 zqxv [])).1 2) zqxv
     = acceptM fnsAscii (children fnsAscii [] { files := [(1, .file (abcq ++ ['\n']) false)] } 2) zqxv :=
-  file_dict_isolated fnsAscii [] _ 1 2 zqxv [] (by decide) zqxv
+  file_dict_isolated fnsAscii [] _ fileUrl 1 2 zqxv [] (by decide) zqxv
 
 /-- non-vacuity of `rebuild_decision_sound(_file)`: the theorems applied, all four hypotheses
 (two shuffled enumerations, a non-empty word, the injective stand-in hash) -/
@@ -628,55 +636,73 @@ example : acceptM fnsAscii [[⟨Zqxv, true⟩, ⟨colour, false⟩],
 
 /-- **A dictionary file on disk** (the property's third way of adding a word; no command involved):
 whatever state the server is in, if the user dictionary file — hand-written or saved — reloads to a
-list containing the normalized word `w`, the next check of ANY document accepts `w`, under the
+list containing the normalized word `w`, the next check of ANY document (w24: of any URL kind `u` —
+also an `untitled:` one, whose file dictionary is empty) accepts `w`, under the
 same proviso on the curated dictionary as `add_then_accepted_partial`. -/
-theorem disk_word_accepted_partial (f : Fns) (cur : List Entry) (s : State) (w : Word) (name : Nat)
-    (hw : w ∈ loadOrEmpty f s.user) (hn : f.normalize w = w)
+theorem disk_word_accepted_partial (f : Fns) (cur : List Entry) (s : State) (w : Word) (u : UrlKind)
+    (name : Nat) (hw : w ∈ loadOrEmpty f s.user) (hn : f.normalize w = w)
     (hcur : ∀ e, lookup f cur w = some e → e.dialectOk = true) :
-    (step f cur s (.lint name [w])).2 = [true] := by
-  simp only [step, List.map_cons, List.map_nil, children]
-  rw [acceptM_of_user f cur _ _ (uniqueKeys_loadOrEmpty f _) w hw hn hcur]
+    (step f cur s (.lint u name [w])).2 = [true] := by
+  simp only [step, childrenOf]
+  cases loadFileDict f u (fileDisk s.files name) with
+  | none => rfl
+  | some fd =>
+    simp only [Option.map_some, List.map_cons, List.map_nil]
+    rw [acceptM_of_user f cur _ _ (uniqueKeys_loadOrEmpty f _) w hw hn hcur]
 
 /-- non-vacuity of `disk_word_accepted_partial`: a hand-edited file with CRLF line ends and a
 duplicate key; the later spelling is the one that counts -/
 example : (step fnsAscii [⟨colour, false⟩]
       { user := .file (Zqxv ++ ['\r', '\n'] ++ abcq ++ ['\n'] ++ zqxv ++ ['\n']) false }
-      (.lint 7 [zqxv])).2 = [true] :=
-  disk_word_accepted_partial fnsAscii _ _ zqxv 7 (by decide) (by decide) (by decide)
+      (.lint fileUrl 7 [zqxv])).2 = [true] :=
+  disk_word_accepted_partial fnsAscii _ _ zqxv fileUrl 7 (by decide) (by decide) (by decide)
 
 /-! ### a file-dictionary word is accepted from then on -/
 
+/-- what a later `HarperAddToFileDict` for the same dictionary file `n` may be for `w` to stay in it:
+issued from a URL without a path it is harmless (nothing is written); issued from a URL WITH a path it
+must not be an `untitled:` one (that would REPLACE the file: `untitled_path_overwrites_file_dict`), the
+word must be well-formed and must not replace `w` by a case variant. For histories whose commands all
+come from `file:` URLs this is the hypothesis the theorems below had before URL kinds were modelled. -/
+abbrev BenignFileAdd (f : Fns) (w : Word) (u : UrlKind) (w' : Word) : Prop :=
+  u.path = true → u.untitled = false ∧ WellFormedWord w' ∧ (key f w' = key f w → w' = w)
+
 theorem benignFile_step (f : Fns) (cur : List Entry) (n : Nat) (w : Word) (s : State) (op : Op)
-    (hb : ∀ w' ord, op = .addFile n w' ord → WellFormedWord w' ∧ (key f w' = key f w → w' = w))
+    (hb : ∀ u w' ord, op = .addFile u n w' ord → BenignFileAdd f w u w')
     (hc : Clean f (fileDisk s.files n))
     (hm : w ∈ loadOrEmpty f (fileDisk s.files n)) :
     Clean f (fileDisk (step f cur s op).1.files n) ∧
       w ∈ loadOrEmpty f (fileDisk (step f cur s op).1.files n) := by
   cases op with
-  | addFile n' w' ord =>
+  | addFile u n' w' ord =>
     by_cases hnn : n' = n
     · subst hnn
-      obtain ⟨hw', hk⟩ := hb w' ord rfl
-      obtain ⟨hl, hp, _, hwf⟩ := add_reload f (fileDisk s.files n') w' ord hc hw'
-      have he := loadOrEmpty_of_loadDict hl
-      simp only [step, Clean, fileDisk_cons_self, he]
-      refine ⟨hwf, hp.mem_iff.mpr ?_⟩
-      by_cases h : key f w = key f w'
-      · rw [← hk h.symm]; exact mem_insert_self f w' _
-      · exact mem_insert_of_ne f w' w _ hm h
-    · simp only [step, fileDisk_cons_ne _ _ _ _ (Ne.symm hnn)]
+      cases hpath : u.path with
+      | false => rw [step_addFile_nopath f cur s u n' w' ord hpath]; exact ⟨hc, hm⟩
+      | true =>
+        obtain ⟨hunt, hw', hk⟩ := hb u w' ord rfl hpath
+        have hu : u = fileUrl := by cases u; simp_all
+        subst hu
+        obtain ⟨hl, hp, _, hwf⟩ := add_reload f (fileDisk s.files n') w' ord hc hw'
+        have he := loadOrEmpty_of_loadDict hl
+        simp only [step_addFile_file, Clean, fileDisk_cons_self, he]
+        refine ⟨hwf, hp.mem_iff.mpr ?_⟩
+        by_cases h : key f w = key f w'
+        · rw [← hk h.symm]; exact mem_insert_self f w' _
+        · exact mem_insert_of_ne f w' w _ hm h
+    · rw [step_addFile_fileDisk_ne f cur s u n' n w' ord (Ne.symm hnn)]
       exact ⟨hc, hm⟩
   | add _ _ => exact ⟨hc, hm⟩
   | crashAdd _ _ _ _ => exact ⟨hc, hm⟩
   | restart => exact ⟨hc, hm⟩
-  | lint _ _ => exact ⟨hc, hm⟩
+  | lint u n' qs => rw [step_lint_files]; exact ⟨hc, hm⟩
   | jsImport _ => exact ⟨hc, hm⟩
   | jsLint _ => exact ⟨hc, hm⟩
   | jsRestart _ => exact ⟨hc, hm⟩
 
 theorem benignFile_runOps (f : Fns) (cur : List Entry) (n : Nat) (w : Word) (rest : List Op) :
-    ∀ s : State, (∀ w' ord, Op.addFile n w' ord ∈ rest →
-        WellFormedWord w' ∧ (key f w' = key f w → w' = w)) → Clean f (fileDisk s.files n) →
+    ∀ s : State, (∀ u w' ord, Op.addFile u n w' ord ∈ rest → BenignFileAdd f w u w') →
+      Clean f (fileDisk s.files n) →
       w ∈ loadOrEmpty f (fileDisk s.files n) →
       w ∈ loadOrEmpty f (fileDisk (runOps f cur s rest).files n) := by
   induction rest with
@@ -684,27 +710,30 @@ theorem benignFile_runOps (f : Fns) (cur : List Entry) (n : Nat) (w : Word) (res
   | cons op rest ih =>
     intro s hb hc hm
     have ⟨hc', hm'⟩ := benignFile_step f cur n w s op
-      (fun w' ord e => hb w' ord (by simp [e])) hc hm
-    exact ih _ (fun w' ord ho => hb w' ord (List.mem_cons_of_mem _ ho)) hc' hm'
+      (fun u w' ord e => hb u w' ord (by simp [e])) hc hm
+    exact ih _ (fun u w' ord ho => hb u w' ord (List.mem_cons_of_mem _ ho)) hc' hm'
 
 /-- **A file-dictionary word is accepted from then on (partial).** After `HarperAddToFileDict w` for a
-document whose dictionary file is `n` (clean), `w` is not reported in that document immediately and
-after any later sequence of operations — user-dictionary adds, CRASHED user-dictionary saves,
-restarts, checks, adds to other file dictionaries, and adds to the same file dictionary that are
-well-formed and do not replace `w` by a case variant — under provisos (1), (2) of
-`add_then_accepted_partial`. (`file_dict_accepted_partial` is the case `rest = []`.) -/
+document (`file:` URL) whose dictionary file is `n` (clean), `w` is not reported in that document
+immediately and after any later sequence of operations — user-dictionary adds, CRASHED
+user-dictionary saves, restarts, checks (of documents of any URL kind), adds to other file
+dictionaries, adds from URLs without a path, and adds to the same file dictionary from `file:` URLs
+that are well-formed and do not replace `w` by a case variant (`BenignFileAdd`) — under provisos (1),
+(2) of `add_then_accepted_partial`. (`file_dict_accepted_partial` is the case `rest = []`.)
+w24: an add to the same dictionary from an `untitled:/…` URL is excluded — it loses `w`:
+`untitled_path_overwrites_file_dict`. -/
 theorem file_dict_then_accepted_partial (f : Fns) (cur : List Entry) (s : State) (n : Nat) (w : Word)
     (ord : List Word) (rest : List Op) (hclean : Clean f (fileDisk s.files n))
     (hw : WellFormedWord w) (hn : f.normalize w = w)
     (hcur : ∀ e, lookup f cur w = some e → e.dialectOk = true)
-    (hrest : ∀ w' ord', Op.addFile n w' ord' ∈ rest →
-      WellFormedWord w' ∧ (key f w' = key f w → w' = w)) :
-    acceptM f (children f cur (runOps f cur (step f cur s (.addFile n w ord)).1 rest) n) w = true := by
+    (hrest : ∀ u w' ord', Op.addFile u n w' ord' ∈ rest → BenignFileAdd f w u w') :
+    acceptM f (children f cur (runOps f cur (step f cur s (.addFile fileUrl n w ord)).1 rest) n) w
+      = true := by
   obtain ⟨hl, hp, _, hwf⟩ := add_reload f (fileDisk s.files n) w ord hclean hw
   have he := loadOrEmpty_of_loadDict hl
-  have h0 : Clean f (fileDisk (step f cur s (.addFile n w ord)).1.files n) ∧
-      w ∈ loadOrEmpty f (fileDisk (step f cur s (.addFile n w ord)).1.files n) := by
-    simp only [step, Clean, fileDisk_cons_self, he]
+  have h0 : Clean f (fileDisk (step f cur s (.addFile fileUrl n w ord)).1.files n) ∧
+      w ∈ loadOrEmpty f (fileDisk (step f cur s (.addFile fileUrl n w ord)).1.files n) := by
+    simp only [step_addFile_file, Clean, fileDisk_cons_self, he]
     exact ⟨hwf, hp.mem_iff.mpr (mem_insert_self f w _)⟩
   have hm := benignFile_runOps f cur n w rest _ hrest h0.1 h0.2
   simp only [children]
@@ -712,20 +741,23 @@ theorem file_dict_then_accepted_partial (f : Fns) (cur : List Entry) (s : State)
     (fun e h => lookup_entries_dialectOk f _ w e h)
 
 /-- non-vacuity of `file_dict_then_accepted_partial`: later a user add of a case variant, a crashed
-user save, an add to another file, an add to the same file, a restart -/
+user save, an add to another file, an add to the same file, (w24) a case-variant add to the same
+name from an `untitled:Untitled-1` URL (nothing is written) and a check of that document, a restart -/
 example : acceptM fnsAscii (children fnsAscii [⟨colour, false⟩]
       (runOps fnsAscii [⟨colour, false⟩]
         (step fnsAscii [⟨colour, false⟩] { files := [(1, .file (abcq ++ ['\n']) false)] }
-          (.addFile 1 zqxv [])).1
-        [.add Zqxv [], .crashAdd zqé [] 1 0, .addFile 2 Zqxv [], .addFile 1 zqé [], .restart]) 1)
+          (.addFile fileUrl 1 zqxv [])).1
+        [.add Zqxv [], .crashAdd zqé [] 1 0, .addFile fileUrl 2 Zqxv [], .addFile fileUrl 1 zqé [],
+          .addFile untitledUrl 1 Zqxv [], .lint untitledUrl 1 [zqxv], .restart]) 1)
       zqxv = true :=
   file_dict_then_accepted_partial fnsAscii _ _ 1 zqxv [] _ (by decide) (by decide) (by decide)
     (by decide)
-    (by intro w' ord' hop
+    (by intro u w' ord' hop
         simp only [List.mem_cons, List.not_mem_nil, or_false, reduceCtorEq, false_or, or_false,
           Op.addFile.injEq] at hop
-        rcases hop with ⟨h, _, _⟩ | ⟨_, rfl, _⟩
+        rcases hop with ⟨_, h, _⟩ | ⟨rfl, _, rfl, _⟩ | ⟨rfl, _, rfl, _⟩
         · cases h
+        · decide
         · decide)
 
 /-! ## w22: every crash point of a save -/
@@ -824,5 +856,154 @@ example : crashDisk (saveTrace [zqxv, abcq, zqé]) 1 7 (.file (zqxv ++ ['\n'] ++
       = .file ['z', 'q', 'x', 'v', '\n', 'a', 'b'] false ∧
     crashDisk (saveTrace [zqxv, abcq, zqé]) 1 13 (.file (zqxv ++ ['\n'] ++ abcq ++ ['\n']) false)
       = .file ['z', 'q', 'x', 'v', '\n', 'a', 'b', 'c', 'q', '\n', 'z', 'q'] true := by decide
+
+/-! ## w24: the document URL — `HarperAddToFileDict` on an `untitled:` document
+
+`backend.rs` tests the URL twice (`Model/DictIO.UrlKind`): `scheme() == "untitled"` and
+`to_file_path()`. The theorems above that mention `fileUrl` are about `file:` URLs; these are about the
+other three kinds. Two of them contradict the property as written (kernel-checked histories below,
+reproduced on the real server by the `server-url` stream of `harness/src/c07.rs`):
+* `untitled_file_dict_add_ignored` — on an unsaved buffer the command does nothing, silently;
+* `untitled_path_overwrites_file_dict` — on `untitled:/a/b.md` it REPLACES the dictionary of `/a/b.md`
+  by the one new word, and the document it was issued for still does not accept the word. -/
+
+/-- **`HarperAddToFileDict` on a URL without a path does nothing.** If `to_file_path()` fails —
+`untitled:Untitled-1`, but also `zq:opaque` or a URL with a host — the command leaves the WHOLE state as
+it was: no dictionary file is created or touched (`fileDisk` of every name, the user dictionary), and
+nothing is kept in memory either (the server holds no file dictionary between commands; the document
+keeps its linter). The answer list is empty and the response is `null`: the client is told nothing. -/
+theorem add_file_untitled_writes_nothing (f : Fns) (cur : List Entry) (s : State) (u : UrlKind)
+    (n : Nat) (w : Word) (ord : List Word) (h : u.path = false) :
+    step f cur s (.addFile u n w ord) = (s, []) :=
+  step_addFile_nopath f cur s u n w ord h
+
+/-- … in particular the file on disk under ANY name, and what it reloads to, are unchanged … -/
+theorem add_file_untitled_disk_unchanged (f : Fns) (cur : List Entry) (s : State) (u : UrlKind)
+    (n m : Nat) (w : Word) (ord : List Word) (h : u.path = false) :
+    fileDisk (step f cur s (.addFile u n w ord)).1.files m = fileDisk s.files m ∧
+    (step f cur s (.addFile u n w ord)).1.user = s.user := by
+  rw [add_file_untitled_writes_nothing f cur s u n w ord h]
+  exact ⟨rfl, rfl⟩
+
+/-- … and every later operation (a check of any document, another command, a restart) answers and
+acts exactly as if the command had never been issued -/
+theorem add_file_untitled_no_trace (f : Fns) (cur : List Entry) (s : State) (u : UrlKind)
+    (n : Nat) (w : Word) (ord : List Word) (h : u.path = false) (rest : List Op) (op : Op) :
+    step f cur (runOps f cur (step f cur s (.addFile u n w ord)).1 rest) op
+      = step f cur (runOps f cur s rest) op := by
+  rw [add_file_untitled_writes_nothing f cur s u n w ord h]
+
+-- non-vacuity: both pathless kinds satisfy the hypothesis; a state with a user dictionary, a file
+-- dictionary under the very name used, and a JS linter; the order argument is junk
+example : untitledUrl.path = false ∧ opaqueUrl.path = false := ⟨rfl, rfl⟩
+example : step fnsAscii [⟨colour, false⟩]
+      { user := .file (abcq ++ ['\n']) false, files := [(4, .file (Zqxv ++ ['\n']) false)],
+        mem := [abcq], js := ⟨[zqé], []⟩ } (.addFile untitledUrl 4 zqxv [abcq, zqxv])
+    = ({ user := .file (abcq ++ ['\n']) false, files := [(4, .file (Zqxv ++ ['\n']) false)],
+         mem := [abcq], js := ⟨[zqé], []⟩ }, []) :=
+  add_file_untitled_writes_nothing fnsAscii _ _ untitledUrl 4 zqxv _ rfl
+-- the hypothesis is needed: with a path (either scheme) a file appears
+example : (step fnsAscii [] {} (.addFile fileUrl 4 zqxv [])).1.files
+      = [(4, .file (zqxv ++ ['\n']) false)] ∧
+    (step fnsAscii [] {} (.addFile untitledPathUrl 4 zqxv [])).1.files
+      = [(4, .file (zqxv ++ ['\n']) false)] := by decide
+
+/-- **The document the command was issued for does not accept the word.** For an `untitled:` URL — with
+or without a path — the next check of that document answers exactly what it answered before the
+command, for every word: `load_file_dictionary` gives an `untitled:` document the empty file
+dictionary whatever is on disk. So a word that was reported stays reported. -/
+theorem add_file_untitled_not_accepted (f : Fns) (cur : List Entry) (s : State) (u : UrlKind)
+    (n : Nat) (w : Word) (ord qs : List Word) (h : u.untitled = true) :
+    (step f cur (step f cur s (.addFile u n w ord)).1 (.lint u n qs)).2
+      = (step f cur s (.lint u n qs)).2 := by
+  have hl : ∀ s' : State, (step f cur s' (.lint u n qs)).2
+      = qs.map (acceptM f [cur, entries (loadOrEmpty f s'.user), entries []]) := by
+    intro s'
+    simp only [step, childrenOf, loadFileDict_untitled f u _ h, Option.map_some]
+  rw [hl, hl, step_addFile_user]
+
+-- non-vacuity: both `untitled:` kinds; the word is reported before and after, an unrelated user word
+-- is accepted before and after
+example : untitledUrl.untitled = true ∧ untitledPathUrl.untitled = true := ⟨rfl, rfl⟩
+example : (step fnsAscii [] { user := .file (abcq ++ ['\n']) false } (.lint untitledPathUrl 1 [zqxv, abcq])).2
+      = [false, true] ∧
+    (step fnsAscii [] (step fnsAscii [] { user := .file (abcq ++ ['\n']) false }
+      (.addFile untitledPathUrl 1 zqxv [])).1 (.lint untitledPathUrl 1 [zqxv, abcq])).2 = [false, true] := by
+  decide
+
+/-- **Finding: `HarperAddToFileDict` on an unsaved buffer is silently ignored — the property is false.**
+`didOpen untitled:Untitled-1` with the text `… zqxv …`; `HarperAddToFileDict zqxv` (the code action is
+offered for every document): the state afterwards is the initial state — no file, nothing in memory —
+and the next check of the document reports `zqxv` again, as does every later one. The same command
+on a `file:` document makes the word accepted. (Class `c07-untitled-url-file-dict-add-ignored`; the
+real server: same diagnostics published again, response `null`, no file created.) -/
+theorem untitled_file_dict_add_ignored :
+    runOps fnsAscii [] {} [.lint untitledUrl 0 [zqxv], .addFile untitledUrl 0 zqxv []] = {} ∧
+    (step fnsAscii [] (runOps fnsAscii [] {} [.lint untitledUrl 0 [zqxv], .addFile untitledUrl 0 zqxv []])
+      (.lint untitledUrl 0 [zqxv])).2 = [false] ∧
+    (step fnsAscii [] (runOps fnsAscii [] {} [.addFile untitledUrl 0 zqxv [], .restart,
+      .addFile untitledUrl 0 zqxv []]) (.lint untitledUrl 0 [zqxv])).2 = [false] ∧
+    (step fnsAscii [] (runOps fnsAscii [] {} [.lint fileUrl 0 [zqxv], .addFile fileUrl 0 zqxv []])
+      (.lint fileUrl 0 [zqxv])).2 = [true] := by decide
+
+/-- `untitled:/a/b.md`: whatever the dictionary file of `/a/b.md` held, after the command it holds the
+one new word (the old file was never loaded: `load_file_dictionary` answers an `untitled:` URL with
+the empty dictionary, `save_file_dictionary` then finds a path) -/
+theorem untitled_path_add_replaces_file (f : Fns) (cur : List Entry) (s : State) (n : Nat) (w : Word)
+    (ord : List Word) :
+    fileDisk (step f cur s (.addFile untitledPathUrl n w ord)).1.files n
+      = .file (w ++ ['\n']) false := by
+  rw [step_addFile_untitledPath, fileDisk_cons_self]
+  have : orderOf ord [w] = [w] := by
+    unfold orderOf
+    split
+    · rename_i hp
+      exact List.perm_singleton.mp (List.isPerm_iff.mp hp)
+    · rfl
+  rw [this]
+  simp [writeLog]
+
+/-- **Finding: an add from `untitled:/a/b.md` loses the file dictionary of `/a/b.md` — the property is
+false.** `HarperAddToFileDict zqxv`, `HarperAddToFileDict abcq` from `file:///a/b.md`; then an unsaved
+buffer with that file name (`untitled:/a/b.md`: same `file_dict_name`) adds `zqé`: the dictionary file
+now holds `zqé` alone, `file:///a/b.md` reports `zqxv` and `abcq` again — two words lost without any
+crash or case collision — and the untitled document itself still reports `zqé`.
+(Class `c07-untitled-url-overwrites-file-dict`.) -/
+theorem untitled_path_overwrites_file_dict :
+    loadOrEmpty fnsAscii (fileDisk (runOps fnsAscii [] {}
+      [.addFile fileUrl 1 zqxv [], .addFile fileUrl 1 abcq []]).files 1) = [zqxv, abcq] ∧
+    fileDisk (runOps fnsAscii [] {} [.addFile fileUrl 1 zqxv [], .addFile fileUrl 1 abcq [],
+      .addFile untitledPathUrl 1 zqé []]).files 1 = .file (zqé ++ ['\n']) false ∧
+    (step fnsAscii [] (runOps fnsAscii [] {} [.addFile fileUrl 1 zqxv [], .addFile fileUrl 1 abcq [],
+      .addFile untitledPathUrl 1 zqé []]) (.lint fileUrl 1 [zqxv, abcq, zqé])).2 = [false, false, true] ∧
+    (step fnsAscii [] (runOps fnsAscii [] {} [.addFile fileUrl 1 zqxv [], .addFile fileUrl 1 abcq [],
+      .addFile untitledPathUrl 1 zqé []]) (.lint untitledPathUrl 1 [zqxv, abcq, zqé])).2
+      = [false, false, false] := by decide
+
+/-- … so the hypothesis `BenignFileAdd` of `file_dict_then_accepted_partial` (no later add to the same
+name from an `untitled:` URL with a path) cannot be dropped: this history violates it and nothing else -/
+example : ¬ BenignFileAdd fnsAscii zqxv untitledPathUrl zqé ∧ BenignFileAdd fnsAscii zqxv fileUrl zqé ∧
+    BenignFileAdd fnsAscii zqxv untitledUrl Zqxv := by decide
+
+/-- a URL whose dictionary cannot be generated at all (`zq:opaque`, a URL with a host): the document
+is never parsed, no word is ever reported, and a command issued for it returns before doing anything -/
+theorem opaque_url_never_checked (f : Fns) (cur : List Entry) (s : State) (n : Nat) (w : Word)
+    (ord qs : List Word) :
+    step f cur s (.lint opaqueUrl n qs) = (s, qs.map fun _ => true) ∧
+    step f cur s (.addFile opaqueUrl n w ord) = (s, []) := ⟨rfl, rfl⟩
+
+/-- what still works for an unsaved buffer: a word added to the USER dictionary is accepted at the
+document's next check (instance of `disk_word_accepted_partial`, which holds for every URL kind) -/
+example : (step fnsAscii [⟨colour, false⟩] (step fnsAscii [⟨colour, false⟩] {} (.add zqxv [])).1
+    (.lint untitledUrl 9 [zqxv])).2 = [true] :=
+  disk_word_accepted_partial fnsAscii _ _ zqxv untitledUrl 9 (by decide) (by decide) (by decide)
+
+/-- `file_dict_isolated` for an `untitled:/…` command: it clobbers its own name and nothing else -/
+example : acceptM fnsAscii (children fnsAscii []
+      (step fnsAscii [] { files := [(1, .file (abcq ++ ['\n']) false), (2, .file (zqxv ++ ['\n']) false)] }
+        (.addFile untitledPathUrl 1 zqé [])).1 2) zqxv
+    = acceptM fnsAscii (children fnsAscii []
+      { files := [(1, .file (abcq ++ ['\n']) false), (2, .file (zqxv ++ ['\n']) false)] } 2) zqxv :=
+  file_dict_isolated fnsAscii [] _ untitledPathUrl 1 2 zqé [] (by decide) zqxv
 
 end Harper.C07
